@@ -165,7 +165,11 @@ def main():
                             continue
                         if P <= 8:
                             lines = mpi.program_trace(run)
-                            ok, r = mpi.validate_program(lines, tag + "-trace", timeout=900)
+                            ok, r = mpi.validate_program(lines, tag + "-trace", timeout=200)
+                            if r.error and not ok and "timeout" in r.error:
+                                c.notes.append("trace search inconclusive (time limit) for %s" % label)
+                                c.extra["inconclusive_traces"] = c.extra.get("inconclusive_traces", 0) + 1
+                                continue
                             if r.error and not ok:
                                 pv.tlc_or_die(r, "MpiProgramTrace")
                             c.states += r.distinct
